@@ -294,6 +294,17 @@ Dev_RemoveAtSizeSucceeds(a, i, rc) ==
     /\ UNCHANGED jvars
 
 Duplicate(s, d, ok, got) == Live(s) /\ ~Live(d) /\ Holds(ok /\ Same(got, slots[s])) /\ Set(d, got)
+(* duplicate of a value that is still inside its container: a value of its own, identical to the member *)
+DuplicateSub(fromObj, o, key, i, d, found, ok, got) ==
+    /\ Live(o) /\ ~Live(d)
+    /\ IF fromObj
+       THEN /\ Holds(~CaseClash(slots[o], key))
+            /\ IF HasKey(slots[o], key)
+               THEN Holds(found /\ ok /\ Same(got, slots[o].x[FirstIdx(slots[o], key)][2])) /\ Set(d, got)
+               ELSE Holds(~found) /\ UNCHANGED jvars
+       ELSE IF InRange(o, i)
+            THEN Holds(found /\ ok /\ Same(got, slots[o].x[i + 1])) /\ Set(d, got)
+            ELSE Holds(~found) /\ UNCHANGED jvars
 (* a duplicate (any identical tree) compares equal; values of different kinds, different strings or literals do not *)
 Compare(a, b, res) ==
     /\ Live(a) /\ Live(b) /\ UNCHANGED jvars
